@@ -179,6 +179,7 @@ func runC01(c *ctx) {
 		byRef[p.ref.String()] = p
 	}
 	c01Packed(c, tmp)
+	c01OverlayRuns(c, tmp)
 	nHist := c.n(110, 1500)
 	for h := 0; h < nHist; h++ {
 		depth := 1 + c.rng.Intn(2)
@@ -520,6 +521,83 @@ func c01Packed(c *ctx, tmp string) {
 			}
 			if sbs, err := statAll(root.sto, []blob.Ref{br}); err != nil || len(sbs) != 1 || int(sbs[0].Size) != len(data) {
 				c.violation(-1, "c01-leaf-stat", fmt.Sprintf("%s: blob %d: stat answers %v (err %v)", desc, i, sbs, err), nil)
+			}
+		}
+		root.closeAll()
+	}
+}
+
+// an overlay over a populated lower layer, with runs of consecutive (in blobref order) lower blobs removed through it: every
+// page size from every cursor must list exactly the blobs that are left (the refill loop must not stop at a page of
+// tombstones)
+func c01OverlayRuns(c *ctx, tmp string) {
+	for round := 0; round < c.n(2, 8); round++ {
+		b := newBuilder(fmt.Sprintf("%s/ovruns%d", tmp, round))
+		root := &cfgNode{Kind: "overlay", HasDel: true, Detail: kvKinds[round%len(kvKinds)], Kids: []*cfgNode{{Kind: "leaf", Leaf: "memory", readOnly: true}, {Kind: "leaf", Leaf: "memory"}}}
+		if err := b.build(root); err != nil {
+			c.rep.Notes = append(c.rep.Notes, "build overlay: "+err.Error())
+			return
+		}
+		ctxb := context.Background()
+		ref := map[string]int{}
+		var refs []blob.Ref
+		for i := 0; i < 9+c.rng.Intn(4); i++ {
+			data := []byte(fmt.Sprintf("lower blob %d of round %d seed %d", i, round, c.seed))
+			br := blob.RefFromBytes(data)
+			where := root.Kids[0].sto
+			if i%4 == 3 {
+				where = root.sto // through the overlay: lands in the upper layer
+			}
+			if _, err := blobserver.Receive(ctxb, where, br, bytes.NewReader(data)); err != nil {
+				c.rep.Notes = append(c.rep.Notes, "overlay preload: "+err.Error())
+				return
+			}
+			ref[br.String()] = len(data)
+			refs = append(refs, br)
+		}
+		sort.Slice(refs, func(i, j int) bool { return refs[i].String() < refs[j].String() })
+		// remove a run of 1-4 consecutive blobs (twice), through the overlay
+		for k := 0; k < 2; k++ {
+			start := c.rng.Intn(len(refs) - 4)
+			run := refs[start : start+1+c.rng.Intn(4)]
+			if err := root.sto.RemoveBlobs(ctxb, run); err != nil {
+				c.violation(-1, "c01-overlay-remove", fmt.Sprintf("overlay over a populated lower layer: RemoveBlobs: %v", err), nil)
+				return
+			}
+			for _, r := range run {
+				delete(ref, r.String())
+			}
+		}
+		var left []string
+		for r := range ref {
+			left = append(left, r)
+		}
+		sort.Strings(left)
+		cursors := []string{""}
+		for _, r := range refs {
+			cursors = append(cursors, r.String())
+		}
+		c.count("ops", "overlay tombstone-run scenario")
+		desc := fmt.Sprintf("overlay[memory memory] with a deleted index (%s): %d blobs, %d left after removing two runs of lower-layer blobs", root.Detail, len(refs), len(left))
+	sweep:
+		for _, cur := range cursors {
+			for limit := 1; limit <= len(refs)+1; limit++ {
+				c.rep.SpecChecks++
+				got, err := enumAll(root.sto, cur, limit)
+				var want []string
+				for _, r := range left {
+					if r > cur && len(want) < limit {
+						want = append(want, r)
+					}
+				}
+				bad := err != nil || len(got) != len(want)
+				for i := 0; !bad && i < len(got); i++ {
+					bad = got[i].Ref.String() != want[i] || int(got[i].Size) != ref[want[i]]
+				}
+				if bad {
+					c.violation(-1, "c01-overlay-enumerate", fmt.Sprintf("%s: enumerate after %q limit %d lists %d blobs (err %v), the map has %d there", desc, cur, limit, len(got), err, len(want)), nil)
+					break sweep
+				}
 			}
 		}
 		root.closeAll()
